@@ -20,6 +20,7 @@ import (
 	"path/filepath"
 	"sort"
 	"strings"
+	"time"
 
 	"github.com/bobertlo/gmars"
 )
@@ -322,6 +323,41 @@ func (b *battle) spawn(i, off int) (line string) {
 	return fmt.Sprintf(`{"ev":"spawn","i":%d,"off":%d,"err":%d,"panic":%q,%s%s%s}`, i, off, errv, pan, b.safePost(), b.repJSON(), b.recJSON())
 }
 
+// run calls Run() under a watchdog and records the state afterwards
+func (b *battle) run() string {
+	type res struct {
+		flags []bool
+		pan   string
+	}
+	ch := make(chan res, 1)
+	go func() {
+		r := res{}
+		defer func() {
+			if e := recover(); e != nil {
+				r.pan = fmt.Sprint(e)
+			}
+			ch <- r
+		}()
+		r.flags = b.sim.Run()
+	}()
+	select {
+	case r := <-ch:
+		nilv := 0
+		if r.flags == nil {
+			nilv = 1
+		}
+		fl := make([]int, len(r.flags))
+		for i, f := range r.flags {
+			if f {
+				fl[i] = 1
+			}
+		}
+		return fmt.Sprintf(`{"ev":"run","nil":%d,"flags":%s,"panic":%q,"timeout":0,%s}`, nilv, intsJSON(fl), r.pan, b.safePost())
+	case <-time.After(20 * time.Second):
+		return `{"ev":"run","nil":0,"flags":[],"panic":"","timeout":1,"cycle":-1,"living":-1,"count":-1,"alive":[],"q":[],"d":[]}`
+	}
+}
+
 func (b *battle) safePost() (s string) {
 	defer func() {
 		if e := recover(); e != nil {
@@ -480,6 +516,9 @@ func recordBattle(r *rand.Rand, cfg simCfg, ws []wdata, offs []int, reports bool
 	for k := 0; k < extra; k++ { // stepping a finished battle: nothing may happen any more
 		line, _, _ := b.cycle()
 		lines = append(lines, line)
+	}
+	if extra > 0 && !reports && r.Intn(2) == 0 { // ... and Run() on it returns at once, with the survivors
+		lines = append(lines, b.run())
 	}
 	if rounds2 && r.Intn(3) == 0 {
 		// the simulator is reused for another round: Reset (sometimes straight after a spawn, before any task ran),
